@@ -10,17 +10,19 @@ set_option linter.unusedSectionVars false
 namespace LndModel.C08
 variable {P Hsh : Type} [DecidableEq P] [DecidableEq Hsh] (H : P → Hsh) (hash : Hsh)
 
+set_option maxHeartbeats 4000000 in
 theorem inv_downSigBob {s s' : Pair P} (hI : Inv H hash s) (h : step H hash s (.downSigBob) = some s') :
     Inv H hash s' := by
-  obtain ⟨a1, a2, a3, a4, a5, a6, a7, a8, a9, a10, a11, a12, a13, a14, a15, a16, a17, a18, a19, a20, a21, a22, a23, a24, a25, a26, a27⟩ := hI
-  rcases s with ⟨up, down, circ, fwdFilter, addAcked, resp, respAcked, mbAdd, mbResp, known, sentUp, signedUp, downCommitted, downAdds, envBad⟩
+  obtain ⟨a1, a2, a3, a4, a5, a6, a7, a8, a9, a10, a11, a12, a13, a14, a15, a16, a17, a18, a19, a20, a21, a22, a23, a24, a25, a26, a27, a28, a29, a30, a31, a32, a33, a34, a35⟩ := hI
+  rcases s with ⟨up, down, decided, fwdFilter, addAcked, circ, keystone, circRef, upDur, delPending, downDur, resp, respAcked, mbAdd, mbResp, mbRef, respRef, known, sentUp, downAdds, envBad⟩
   dsimp only at *
-  rcases down with _ | st | _ | ⟨r, st⟩ | r <;> (try cases st) <;> simp only [LndModel.C08.step, stepDownSigBob, Life.sigO] at h <;> cases h <;> constructor <;> life_grind
+  rcases down with _ | st | _ | ⟨r, st⟩ | r <;> (try cases st) <;> simp only [LndModel.C08.step, stepDownSigBob, Life.sigO] at h <;> (try split at h) <;> cases h <;> constructor <;> life_grind
 
+set_option maxHeartbeats 4000000 in
 theorem inv_downRevBob {s s' : Pair P} (hI : Inv H hash s) (h : step H hash s (.downRevBob) = some s') :
     Inv H hash s' := by
-  obtain ⟨a1, a2, a3, a4, a5, a6, a7, a8, a9, a10, a11, a12, a13, a14, a15, a16, a17, a18, a19, a20, a21, a22, a23, a24, a25, a26, a27⟩ := hI
-  rcases s with ⟨up, down, circ, fwdFilter, addAcked, resp, respAcked, mbAdd, mbResp, known, sentUp, signedUp, downCommitted, downAdds, envBad⟩
+  obtain ⟨a1, a2, a3, a4, a5, a6, a7, a8, a9, a10, a11, a12, a13, a14, a15, a16, a17, a18, a19, a20, a21, a22, a23, a24, a25, a26, a27, a28, a29, a30, a31, a32, a33, a34, a35⟩ := hI
+  rcases s with ⟨up, down, decided, fwdFilter, addAcked, circ, keystone, circRef, upDur, delPending, downDur, resp, respAcked, mbAdd, mbResp, mbRef, respRef, known, sentUp, downAdds, envBad⟩
   dsimp only at *
   rcases down with _ | st | _ | ⟨r, st⟩ | r <;> (try cases st) <;> simp only [LndModel.C08.step, Life.revO] at h <;> split at h <;> cases h <;> constructor <;> life_grind
 
